@@ -5,8 +5,8 @@ from ..core import f2b, b2f, run_harness, run_driver
 from ..cmp import cmp_record, bits_close
 from .. import gen, oracle, graphs
 
-MODULE = "Momtrop.Props.C03Step"
-THEOREMS = ["Momtrop.C03.fromGraph_fields", "Momtrop.C03.genDod_empty", "Momtrop.C03.genDod_nonempty", "Momtrop.C03.preEntry_flags", "Momtrop.C03.numVariables_eq", "Momtrop.C03.spanning_iff", "Momtrop.C03.spanning_nil", "Momtrop.C03.loopNumber_nil", "Momtrop.C03.component_search_exact", "Momtrop.C03.first_component", "Momtrop.C03.components_are_classes", "Momtrop.C03.same_component_iff", "Momtrop.C03.component_mask_bits", "Momtrop.C03.loopNumber_is_cyclomatic", "Momtrop.C03.subset_edges_ok", "Momtrop.C03.weightSum_pop", "Momtrop.C03.genDod_step", "Momtrop.C03.genDod_step_bool"]
+MODULE = "Momtrop.Props.C03Mono"
+THEOREMS = ["Momtrop.C03.fromGraph_fields", "Momtrop.C03.genDod_empty", "Momtrop.C03.genDod_nonempty", "Momtrop.C03.preEntry_flags", "Momtrop.C03.numVariables_eq", "Momtrop.C03.spanning_iff", "Momtrop.C03.spanning_nil", "Momtrop.C03.loopNumber_nil", "Momtrop.C03.component_search_exact", "Momtrop.C03.first_component", "Momtrop.C03.components_are_classes", "Momtrop.C03.same_component_iff", "Momtrop.C03.component_mask_bits", "Momtrop.C03.loopNumber_is_cyclomatic", "Momtrop.C03.subset_edges_ok", "Momtrop.C03.weightSum_pop", "Momtrop.C03.genDod_step", "Momtrop.C03.genDod_step_bool", "Momtrop.componentLists_length", "Momtrop.loopNumber_erase", "Momtrop.C01.loopsT_step", "Momtrop.C01.spanT_mono", "Momtrop.C01.removalFacts_fromGraph"]
 RULE = ("(i) every multigraph with E<=3 (quick) / E<=4 (thorough) edges on 4 vertex slots incl. self-loops and parallel edges, "
         "random u8 relabelling, several mass patterns and external sets (incl. an untouched vertex), all 2^E subsets via the "
         "hook; (ii) catalogue + random graphs up to E=6 (quick) / 8 (thorough), D=1..6, accepted ones through the full table. "
